@@ -272,7 +272,7 @@ def pick_text(rng, bg, thr, band):
 ALL_FEATURES = (
     "vars", "var-fallback", "var-undefined", "var-chain", "var-shared", "root-direct-color", "root-and-html",
     "important", "repeat-decl", "prop-case", "nesting", "bg-var", "keywords", "opaque-atrules", "vendor-hacks",
-    "star-hack", "non-ascii", "crlf", "bom", "cdo-cdc", "alpha-text", "comments", "no-color-rules", "odd-strings", "dup-root", "nested-root", "unicode-seps", "dup-selectors", "own-colour-elsewhere", "css-nesting", "comment-in-value", "stale-charset", "var-names", "nested-root-color", "many-rules", "one-notation",
+    "star-hack", "non-ascii", "crlf", "bom", "cdo-cdc", "alpha-text", "comments", "no-color-rules", "odd-strings", "dup-root", "nested-root", "unicode-seps", "dup-selectors", "own-colour-elsewhere", "css-nesting", "comment-in-value", "stale-charset", "var-names", "nested-root-color", "many-rules", "one-notation", "var-cycle",
 )
 # features outside what the reference cascade of C08 models or what C08's statement quantifies over
 C09_ONLY = ("opaque-atrules", "vendor-hacks", "star-hack", "crlf", "bom", "odd-strings", "dup-root", "unicode-seps", "dup-selectors", "css-nesting", "comment-in-value", "stale-charset", "nested-root-color")
@@ -283,7 +283,8 @@ _SEL_FORMS_NONASCII = (".r\u00e9%d", ".\u4e2d%d", "#\u00fc%d")
 _OTHER_DECLS = ("margin: 0", "font-size: 14px", "border: 1px solid #123456", "background: url(a.png)", "padding:1em 2em",
                 "font-family: \"Helvetica Neue\", Arial", "line-height:1.5", "border-color: red", "outline-color: #777",
                 "content: \"a;b}c\"", "display:none")
-_COMMENTS = ("/* note */", "/**/", "/* color: #777; */", "/* a{b:c} */", "/*! keep */")
+_COMMENTS = ("/* note */", "/**/", "/* color: #777; */", "/* a{b:c} */", "/*! keep */", "/*#region Typography*/", "/*#endregion*/",
+             "/*# sourceMappingURL=site.css.map */", "/*@todo: dark theme*/", "/*@noflip*/", "/*# ---- Buttons ---- #*/", "/*<!-- x -->*/")
 _OPAQUE_STMTS = (
     "@import url(\"x.css\");", "@import 'y.css' screen;", "@namespace svg url(http://www.w3.org/2000/svg);",
     "@layer base, components;", "@unknown-thing foo bar;", "@media print;", "@supports (display: grid);",
@@ -563,6 +564,23 @@ class SheetGen:
                 items.append(self.plain_rule())
             else:
                 items.append(self.colour_rule())
+        if "var-cycle" in f:
+            # custom properties that refer to each other in a circle - through their values or only through their var()
+            # FALLBACKS (theme hooks left undefined): invalid at computed-value time, never a reason to lose the file
+            form = r.choice(("values", "self", "fallbacks", "fallback-self"))
+            k = len(self.vars)
+            a, b = "--cyc%da" % k, "--cyc%db" % k
+            if form == "values":
+                self.vars += [(a, None, "var(%s)" % b), (b, None, "var(%s)" % a)]
+            elif form == "self":
+                self.vars += [(a, None, "var(%s)" % a)]
+            elif form == "fallbacks":
+                self.vars += [(a, None, "var(--hook%da, var(%s))" % (k, b)), (b, None, "var(--hook%db, var(%s))" % (k, a))]
+            else:
+                self.vars += [(a, None, "var(--hook%d, var(%s))" % (k, a))]
+            use = r.choice(("var(%s)" % a, "var(%s)" % a, "var(%s, %s)" % (a, self.literal(rand_rgb(r)))))
+            items.insert(r.randrange(len(items) + 1), {"t": "rule", "sel": self.selector(), "decls": [
+                {"p": r.choice(("color", "color", "background-color")), "v": use, "imp": ""}, {"rawdecl": "margin: 0"}]})
         # variable blocks
         blocks = []
         if self.vars or "root-direct-color" in f or "dup-root" in f:
